@@ -162,6 +162,174 @@ theorem merge_old_counterexample :
   · trivial
   · simp only [ne_eq, Option.some.injEq]; grind
 
+/-! ### the total is independent of the answer order too -/
+
+def names (m : Answer) : List String := m.map (·.1)
+
+theorem nodup_pairs_of_names (m : Answer) (h : (names m).Nodup) : m.Nodup := by
+  induction m with
+  | nil => exact List.nodup_nil
+  | cons p rest ih =>
+    simp only [names, List.map_cons, List.nodup_cons] at h
+    rw [List.nodup_cons]
+    exact ⟨fun hm => h.1 (List.mem_map_of_mem hm), ih h.2⟩
+
+theorem mem_iff_find (m : Answer) (h : (names m).Nodup) (name : String) (c : Cap) :
+    (name, c) ∈ m ↔ m.find? name = some c := by
+  induction m with
+  | nil => simp [Answer.find?]
+  | cons p rest ih =>
+    obtain ⟨a, b⟩ := p
+    simp only [names, List.map_cons, List.nodup_cons] at h
+    simp only [List.mem_cons, Prod.mk.injEq, Answer.find?]
+    by_cases e : a = name
+    · subst e
+      simp only [if_true, Option.some.injEq, true_and]
+      constructor
+      · rintro (h1 | h1)
+        · exact h1.symm
+        · exact absurd (List.mem_map_of_mem (f := (·.1)) h1) h.1
+      · intro h1; exact Or.inl h1.symm
+    · simp only [e, if_false]
+      have : ¬ (name = a ∧ c = b) := fun h1 => e h1.1.symm
+      simp only [this, false_or]
+      exact ih h.2
+
+theorem names_filterMap_sublist (m1 : Answer) (f : String × Cap → Option (String × Cap))
+    (hf : ∀ p q, f p = some q → q.1 = p.1) : (names (m1.filterMap f)).Sublist (names m1) := by
+  induction m1 with
+  | nil => exact List.Sublist.slnil
+  | cons p rest ih =>
+    simp only [List.filterMap_cons]
+    cases hp : f p with
+    | none => simp only [names, List.map_cons]; exact List.Sublist.cons _ ih
+    | some q =>
+      simp only [names, List.map_cons, hf p q hp]
+      exact List.Sublist.cons₂ _ ih
+
+theorem names_foldl_sublist (rest : List Answer) (acc : Answer) :
+    (names ((rest.foldl (fun acc a => some (mergeCapacity acc a)) (some acc)).getD [])).Sublist (names acc) := by
+  induction rest generalizing acc with
+  | nil => simp
+  | cons a rest ih =>
+    simp only [List.foldl_cons]
+    refine (ih _).trans ?_
+    unfold mergeCapacity
+    apply names_filterMap_sublist
+    intro p q hq
+    cases h2 : Answer.find? a p.1 with
+    | none => simp [h2] at hq
+    | some c2 => simp only [h2, Option.some.injEq] at hq; rw [← hq]
+
+theorem names_manager_nodup (answers : List Answer) (h : ∀ a ∈ answers, (names a).Nodup) :
+    (names (managerDeployCapacity answers).1).Nodup := by
+  unfold managerDeployCapacity
+  simp only
+  have hn : ∀ m : Answer, names (m.map fun x => (x.1, average x.2)) = names m := by
+    intro m; simp [names, List.map_map]
+  have hf : (fun (x : String × Cap) => match x with | (name, c) => (name, average c)) = fun x => (x.1, average x.2) := by
+    funext ⟨a, b⟩; rfl
+  rw [hf, hn]
+  cases answers with
+  | nil => simp [mergeFold, names]
+  | cons a rest =>
+    unfold mergeFold
+    simp only [List.foldl_cons]
+    refine (names_foldl_sublist rest _).nodup ?_
+    have : names (mergeCapacity none a) = names a := by
+      unfold mergeCapacity; simp [names, List.map_map]
+    rw [this]; exact h a (by simp)
+
+theorem sum_perm_int {l l' : List Int} (h : l.Perm l') : l.sum = l'.sum := by
+  induction h with
+  | nil => rfl
+  | cons x _ ih => simp [ih]
+  | swap x y l => simp only [List.sum_cons]; omega
+  | trans _ _ ih1 ih2 => exact ih1.trans ih2
+
+/-- For any two orders of the same answers (each answer a Go map: every node at most once) the
+    offered nodes with their entries are the same up to order, and — capacities being
+    non-negative — the reported totals are equal. -/
+theorem merge_total_perm_invariant {answers answers' : List Answer} (h : answers.Perm answers')
+    (hn : ∀ a ∈ answers, (names a).Nodup) (hpos : ∀ a ∈ answers, ∀ p ∈ a, 0 ≤ p.2.cap) :
+    (managerDeployCapacity answers).1.Perm (managerDeployCapacity answers').1 ∧
+    (managerDeployCapacity answers).2 = (managerDeployCapacity answers').2 := by
+  have hn' : ∀ a ∈ answers', (names a).Nodup := fun a ha => hn a (h.mem_iff.2 ha)
+  have n1 := names_manager_nodup answers hn
+  have n2 := names_manager_nodup answers' hn'
+  have hperm : (managerDeployCapacity answers).1.Perm (managerDeployCapacity answers').1 := by
+    rw [List.perm_ext_iff_of_nodup (nodup_pairs_of_names _ n1) (nodup_pairs_of_names _ n2)]
+    rintro ⟨name, c⟩
+    rw [mem_iff_find _ n1, mem_iff_find _ n2, merge_perm_invariant h]
+  refine ⟨hperm, ?_⟩
+  -- non-negative capacities: both totals are the saturating sum
+  have nonneg : ∀ (as : List Answer), (∀ a ∈ as, ∀ p ∈ a, 0 ≤ p.2.cap) → (∀ a ∈ as, (names a).Nodup) →
+      ∀ p ∈ (managerDeployCapacity as).1, 0 ≤ p.2.cap := by
+    intro as hp hnd ⟨name, c⟩ hm
+    have hfind := (mem_iff_find _ (names_manager_nodup as hnd) name c).1 hm
+    have hcap := merge_cap_min as name c hfind
+    have hoff := (merge_offered_iff_all as name).1 (by rw [hfind]; rfl)
+    simp only
+    rw [hcap, minCap_eq_minList]
+    -- the minimum of a non-empty list of non-negative capacities
+    have hall : ∀ x ∈ capsOf as name, 0 ≤ x := by
+      intro x hx
+      unfold capsOf at hx
+      simp only [List.mem_filterMap, Option.map_eq_some_iff] at hx
+      obtain ⟨a, ha, c', hc', rfl⟩ := hx
+      have hw : (names a).Nodup := hnd a ha
+      exact hp a ha (name, c') ((mem_iff_find a hw name c').2 hc')
+    cases hl : capsOf as name with
+    | nil => simp [minList]
+    | cons d ds =>
+      rw [hl] at hall
+      have := foldl_min_mem ds d
+      simp only [minList]
+      rcases this with e | e
+      · rw [e]; exact hall d (by simp)
+      · exact hall _ (by simp [e])
+  have hpos' : ∀ a ∈ answers', ∀ p ∈ a, 0 ≤ p.2.cap := fun a ha => hpos a (h.mem_iff.2 ha)
+  rw [C07total answers (nonneg answers hpos hn), C07total answers' (nonneg answers' hpos' hn')]
+  unfold satSum
+  rw [sum_perm_int (hperm.map _)]
+where
+  C07total (answers : List Answer) (h : ∀ p ∈ (managerDeployCapacity answers).1, 0 ≤ p.2.cap) :
+      (managerDeployCapacity answers).2 = satSum ((managerDeployCapacity answers).1.map (·.2.cap)) := by
+    unfold managerDeployCapacity at *
+    simp only at h ⊢
+    generalize (List.map (fun x => (x.1, average x.2)) ((mergeFold answers).getD [])) = merged at h ⊢
+    have : merged.foldl (fun t x => satAdd t x.2.cap) 0 = (merged.map (·.2.cap)).foldl satAdd 0 := by
+      rw [List.foldl_map]
+    rw [this]
+    have key : ∀ (l : List Int) (t : Int), 0 ≤ t → t ≤ maxInt → (∀ c ∈ l, 0 ≤ c) → l.foldl satAdd t = min (t + l.sum) maxInt := by
+      intro l
+      induction l with
+      | nil => intro t h0 h1 _; simp; omega
+      | cons c rest ih =>
+        intro t h0 h1 hl
+        have hc : 0 ≤ c := hl c (by simp)
+        have hs : 0 ≤ rest.sum := by
+          have : ∀ (l : List Int), (∀ c ∈ l, 0 ≤ c) → 0 ≤ l.sum := by
+            intro l; induction l with
+            | nil => intro _; simp
+            | cons a r ihr => intro hh; have := hh a (by simp); have := ihr (fun x hx => hh x (by simp [hx])); simp only [List.sum_cons]; omega
+          exact this rest (fun x hx => hl x (by simp [hx]))
+        simp only [List.foldl_cons, List.sum_cons]
+        have hstep : satAdd t c = if c > maxInt - t then maxInt else t + c := rfl
+        rw [hstep]
+        split
+        · rw [ih maxInt (by unfold maxInt; omega) (by omega) (fun x hx => hl x (by simp [hx]))]
+          unfold maxInt at *; omega
+        · rw [ih (t + c) (by omega) (by omega) (fun x hx => hl x (by simp [hx]))]
+          omega
+    rw [key _ 0 (by omega) (by unfold maxInt; omega)]
+    · simp [satSum]
+    · intro c hc
+      simp only [List.mem_map] at hc
+      obtain ⟨p, hp, rfl⟩ := hc
+      exact h p hp
+
+
 example : ∃ answers node c, (managerDeployCapacity answers).1.find? node = some c ∧ answers.length = 2 :=
   ⟨[[("n", { cap := 3, usage := 1, rate := 1, weight := 2 })], [("n", { cap := 2 })]], "n", _, rfl, rfl⟩
 
